@@ -370,8 +370,27 @@ func c15Run(c *C) {
 		var direct strings.Builder
 		wsDirect(doc, &direct)
 		onSet := r.Bool()
-		out, out2, err := wsRender(marked, tb, ls, onSet, true)
-		sout, _, serr := wsRender(stripped, false, false, false, false)
+		var out, out2, sout string
+		var err, serr error
+		if onSet {
+			out, out2, err = wsRender(marked, tb, ls, true, true)
+			sout, _, serr = wsRender(stripped, false, false, false, false)
+		} else {
+			// both templates live in ONE set; the options are changed on the marked template only
+			set, _ := newSet(emptySetFiles)
+			var tplS, tplD *pongo2.Template
+			tplS, serr = set.FromString(stripped)
+			tplD, err = set.FromString(marked)
+			if err == nil && serr == nil {
+				tplD.Options.TrimBlocks = tb
+				tplD.Options.LStripBlocks = ls
+				out, err = tplD.Execute(wsCtx())
+				sout, serr = tplS.Execute(wsCtx())
+				if err == nil {
+					out2, err = tplD.Execute(wsCtx())
+				}
+			}
+		}
 		c.Eval(3)
 		d := D{"marked_source": q(marked), "hand_stripped_source": q(stripped), "TrimBlocks": tb, "LStripBlocks": ls, "options_set_on": map[bool]string{true: "set before compile", false: "template after compile"}[onSet],
 			"output_marked": q(out), "output_marked_second_render": q(out2), "output_hand_stripped": q(sout), "expected_direct": q(direct.String()), "error": errStr(err) + errStr(serr)}
